@@ -142,6 +142,8 @@ def m_len(I, x):
         fn = I.models.get(x.kind + ".__len__")
         if fn is not None:
             return fn(I, x)
+    if isinstance(x, Obj) and "__bytes__" in x.attrs:   # library record: len(x) == len(bytes(x)) (assumed, dpkt)
+        return to_bytes_val(x.attrs["__bytes__"]).length
     raise PyExc("TypeError", "object of type '%s' has no len()" % type(x).__name__)
 
 
